@@ -196,7 +196,7 @@ func unmarshalCapability(a *api.Capability) (bgp.ParameterCapabilityInterface, e
 		tuples := make([]*bgp.CapExtendedNexthopTuple, 0, len(a.Tuples))
 		for _, t := range a.Tuples {
 			var nhAfi uint16
-			switch t.NexthopFamily.Afi {
+			switch t.GetNexthopFamily().GetAfi() {
 			case api.Family_AFI_IP:
 				nhAfi = bgp.AFI_IP
 			case api.Family_AFI_IP6:
